@@ -42,6 +42,7 @@ func main() {
 	renames := flag.Bool("renames", false, "with -mutate: sweep behaviour-preserving renames of locals instead (every report is a false alarm)")
 	par := flag.Int("par", 0, "mutation sweep: parallel workers (default NumCPU/2)")
 	genEffdom := flag.String("gen-effdom", "", "write the E-DOM reference table of the analysed tree to this file")
+	genGuarded := flag.String("gen-guarded", "", "write the guarded-action reference table of the analysed tree to this file")
 	limit := flag.Int("limit", 0, "mutation sweep: at most this many mutants (deterministic thinning)")
 	flag.Parse()
 
@@ -73,6 +74,11 @@ func main() {
 	if *warm {
 		p := guardLoad(*repo, "")
 		fmt.Printf("loaded %d packages, %d files, %d functions\n", len(p.All), p.NFiles, p.NFuncs)
+		return
+	}
+	if *genGuarded != "" {
+		p := guardLoad(*repo, "")
+		genGuardedTable(p, *genGuarded)
 		return
 	}
 	if *genEffdom != "" {
